@@ -75,12 +75,14 @@ theorem generated_concat_and_sources :
 
 
 
+
 -- BEGIN PINS (written by bin/mkpins; do not edit by hand)
 /-- the Go functions this property's model and obligations were written against have exactly the
 pinned skeletons (SHA-256 prefix of the atom list) -/
 theorem pinned_skeletons_c19 :
     pinsOk
-    [("Components.CommandToParams_Run", "5332a14740c49675"),
+    [("Components.#decls", "84eddb1c2309452c"),
+     ("Components.CommandToParams_Run", "5332a14740c49675"),
      ("Components.Concatenator_Run", "31b9a713ae609514"),
      ("Components.FileCombinator_Run", "c80f07b773d07bc8"),
      ("Components.FileCombinator_combine", "469f973aa97a6873"),
